@@ -71,6 +71,9 @@ func c12Price(r *rand.Rand) string {
 		return fmt.Sprint(1 + r.Intn(9))
 	case 3:
 		return "3"
+	case 4:
+		// magnitudes whose reciprocal truncates to zero at 8 decimals, or overflows ordinary ranges
+		return []string{"1500000000", "100000001", "123456789012.5", "99999999.99999999", "100000000", "0.00000001", "0.00000002", "0.0000001"}[r.Intn(8)]
 	}
 	return gen.PriceStr(r)
 }
